@@ -297,6 +297,41 @@ func (g *G) mutate(s string) string {
 	}
 }
 
+// ParseAll enumerates EVERY string of up to maxLen characters over a small alphabet of the grammar (the one
+// mc/MC_Parse uses at design level) and parses each with base argument 0 - and the prefix-free ones also with
+// 2, 8, 10, 16 in rotation: small-scope exhaustive conformance of the real scanner with the recogniser.
+func ParseAll(g *G, maxLen int, stride int) []Program {
+	var out []Program
+	alpha := []string{"0", "1", "9", "a", "_", ".", "e", "p", "x", "b", "-", "+"}
+	bases := []int{2, 8, 10, 16}
+	cnt := 0
+	var rec func(s string)
+	rec = func(s string) {
+		if len(s) > 0 {
+			cnt++
+			if stride <= 1 || len(s) <= 3 || cnt%stride == 0 {
+				g.Emit(M{"op": "Parse", "z": "r2", "s": s, "base": 0, "big": true})
+				if !strings.ContainsAny(s, "_xb") || cnt%5 == 0 {
+					g.Emit(M{"op": "Parse", "z": "r3", "s": s, "base": bases[cnt%4], "big": true})
+				}
+				if g.Pending() >= 400 {
+					out = append(out, g.Flush("parseall"))
+				}
+			}
+		}
+		if len(s) < maxLen {
+			for _, c := range alpha {
+				rec(s + c)
+			}
+		}
+	}
+	rec("")
+	if g.Pending() > 0 {
+		out = append(out, g.Flush("parseall"))
+	}
+	return out
+}
+
 // Parse generates the C12 programs.
 func Parse(g *G, n int) []Program {
 	var out []Program
